@@ -1,7 +1,75 @@
-import Atomman.Prelude
-open Atomman
+import Atomman.C03
+open Atomman Atomman.C03
 
-/-- stub: replaced when the C03 model is built. -/
-def handleC03 (_toks : List String) : String := err "op"
+/-- `c0 n.. c1 n.. …`: every row as its coordination number followed by its neighbours. -/
+def showRowsC03 (rows : Rows) : String :=
+  " ".intercalate (rows.map fun r => " ".intercalate ((toString r.length) :: r.map toString))
+
+/-- inverse of `showRowsC03` for `n` rows. -/
+def readRowsC03 : Nat → List Nat → Option Rows
+  | 0, [] => some []
+  | 0, _ => none
+  | _ + 1, [] => none
+  | n + 1, c :: rest =>
+    if rest.length < c then none else
+    (readRowsC03 n (rest.drop c)).map (fun t => rest.take c :: t)
+
+/-- what `np.empty` leaves behind: a value no atom index can take. -/
+def junkC03 (r k : Nat) : Nat := 900000 + 1000 * r + k
+
+def handleC03 (toks : List String) : String :=
+  match toks with
+  | "nlist" :: px :: py :: pz :: cutoff :: init :: delta :: tol :: rest =>
+    match parseBool? px, parseBool? py, parseBool? pz, parseRat? cutoff, init.toNat?, delta.toNat?,
+          parseRat? tol with
+    | some px, some py, some pz, some cutoff, some init, some delta, some tol =>
+      match parseRats? (rest.take 12), (rest.drop 12).head?.bind String.toNat?, parseRats? (rest.drop 13) with
+      | some [a, b, c, d, e, f, g, h, i, ox, oy, oz], some n, some xs =>
+        if xs.length ≠ 3 * n then err "format" else
+        if cutoff ≤ 0 ∨ init < 1 ∨ delta < 1 then err "value" else
+        let pos := (List.range n).map fun k => (⟨xs.getD (3 * k) 0, xs.getD (3 * k + 1) 0, xs.getD (3 * k + 2) 0⟩ : V3 Rat)
+        let S : Sys := ⟨⟨⟨a, b, c⟩, ⟨d, e, f⟩, ⟨g, h, i⟩⟩, ⟨ox, oy, oz⟩, px, py, pz, pos⟩
+        let G := mkGrid S cutoff
+        let es := entries S G
+        if !validEntries es then err "value" else
+        let cs := candsOf G es
+        let c2 := cutoff * cutoff
+        let rowsL := runL S c2 cs
+        let st := runA junkC03 init delta S c2 cs
+        if absRows st.rows ≠ rowsL then err "assert" else
+        if st.rows.any (fun r => r.length ≠ st.maxn + 1) then err "assert" else
+        let coordOk := st.rows.all fun r => coordOf r == (absRow r).length
+        if !coordOk then err "assert" else
+        s!"ok {st.maxn} {showBool (nearCutoff S cutoff tol)} {showBool (nearEdge S G tol)} {cs.length} {es.length} "
+          ++ showRowsC03 (absRows st.rows)
+      | _, _, _ => err "format"
+    | _, _, _, _, _, _, _ => err "format"
+  | "spec" :: px :: py :: pz :: cutoff :: rest =>
+    -- the specification itself (used to cross-check the Python oracle)
+    match parseBool? px, parseBool? py, parseBool? pz, parseRat? cutoff with
+    | some px, some py, some pz, some cutoff =>
+      match parseRats? (rest.take 12), (rest.drop 12).head?.bind String.toNat?, parseRats? (rest.drop 13) with
+      | some [a, b, c, d, e, f, g, h, i, ox, oy, oz], some n, some xs =>
+        if xs.length ≠ 3 * n then err "format" else
+        let pos := (List.range n).map fun k => (⟨xs.getD (3 * k) 0, xs.getD (3 * k + 1) 0, xs.getD (3 * k + 2) 0⟩ : V3 Rat)
+        let S : Sys := ⟨⟨⟨a, b, c⟩, ⟨d, e, f⟩, ⟨g, h, i⟩⟩, ⟨ox, oy, oz⟩, px, py, pz, pos⟩
+        "ok " ++ showRowsC03 ((List.range n).map (nlistSpec S cutoff))
+      | _, _, _ => err "format"
+    | _, _, _, _ => err "format"
+  | "dump" :: n :: rest =>
+    match n.toNat?, parseNats? rest with
+    | some n, some xs =>
+      match readRowsC03 n xs with
+      | some rows => " ".intercalate ((render rows).map (fun ch => toString ch.toNat))
+      | none => err "format"
+    | _, _ => err "format"
+  | "load" :: rest =>
+    match parseNats? rest with
+    | some codes =>
+      match parse (codes.map Char.ofNat) with
+      | some rows => s!"ok {rows.length} " ++ showRowsC03 rows
+      | none => err "value"
+    | none => err "format"
+  | _ => err "op"
 
 def main : IO Unit := runDriver handleC03
